@@ -16,7 +16,7 @@ EXPLANATION = ("Three-way agreement decided from the source on every run: for 43
                "with the header/tail mirror. A symmetric change of writer and reader (invisible to any round-trip test) changes two "
                "of the three. Not decided: that an independent decoder recovers the logical content; that a corpus reads."
                " (R7) plain value store: the declared data size equals what write_data emits (the remembered key changes only where the accumulator advances); (R8) cluster pointers are tail offsets (= C01-R6)."
-               " Added later: (R9) counts are compared with their field's maximum before they are narrowed; (R10) positions stored in a pack written at a recorded origin are pack-relative; (R11) offset widths come from the total (= C02-R8); (R12) column widths are chosen on final positions (= C15-R1).")
+               " Added later: (R9) counts are compared with their field's maximum before they are narrowed; (R10) positions stored in a pack written at a recorded origin are pack-relative; (R11) offset widths come from the total (= C02-R8); (R12) column widths are chosen on final positions (= C15-R1). (R13) every table is one checked block (= C01-R18).")
 ASSUMPTIONS = ["the reference table was written from the pinned sources (DESIGN.md Appendix A)", "zerocopy/byteorder LE/BE helpers behave as documented",
                "rustc HIR/MIR construction and trait resolution"]
 
@@ -725,6 +725,12 @@ def r2c_content_address_key_byte(cx):
           "with pack_id_size = U2 every write of the content-address key byte (%d sites) comes after `| 0b0000_0100` (writes reachable without it: lines %s)" % (len(writes), missed))
 
 
+def r13_tables_are_single_blocks(cx):
+    """'block checksums, tables': a table is one block (= C01-R18 under C14)"""
+    import c01
+    c01.r18_tables_are_single_blocks(cx, rule="R13")
+
+
 def r12_widths_chosen_on_final_positions(cx):
     """'sizes': the byte width of a column is chosen from the values that will be written -- for a column of entry
     positions, after the last sort and re-indexing (= C15-R1 under C14)"""
@@ -739,6 +745,7 @@ def r11_offset_widths(cx):
 
 
 RULES = [
+    ("R13", r13_tables_are_single_blocks, 5),
     ("R12", r12_widths_chosen_on_final_positions, 7),
     ("R11", r11_offset_widths, 3),
     ("R10", r10_stored_positions_are_pack_relative, 4),
